@@ -267,12 +267,23 @@ def r4_generators(ctx):
              "the generated `match locale` is where fallback becomes behaviour: a generator that ignores the computed groups "
              "either fails to compile only for projects with defaults or renders another locale's text", floor=8)
     ast = ctx.ast
+    from rules import gentext, absint as _absint
+    from report import Rule as _Rule
+    tmp = _Rule("C03.R4", "arms", "arms", floor=0)
+    try:
+        arms_ok = gentext.check_locale_arms(ctx, tmp, rid="R4")
+    except _absint.Unknown as u:
+        arms_ok = False
+        r.viol("R4:undecided", "the per-locale generators cannot be interpreted on the current code (%s): not decided on this tree (fail closed)" % str(u)[:300], file=MI)
+    r.instances += tmp.instances
+    r.violations += tmp.violations
     sites = [
         ("create_locale_type_inner (literals)", ast.fn(ML, "create_locale_type_inner"), "computed_defaults", "defaults.compute"),
-        ("Interpolation::create_locale_impl", ast.fn(MI, "create_locale_impl", impl_self="Interpolation"), "defaults", None),
-        ("Interpolation::create_locale_string_impl", ast.fn(MI, "create_locale_string_impl", impl_self="Interpolation"), "defaults", None),
         ("Interpolation::display_impl (new_fn)", ast.fn(MI, "display_impl", impl_self="Interpolation"), "defaults", None),
     ]
+    if not arms_ok:
+        sites += [("Interpolation::create_locale_impl", ast.fn(MI, "create_locale_impl", impl_self="Interpolation"), "defaults", None),
+                  ("Interpolation::create_locale_string_impl", ast.fn(MI, "create_locale_string_impl", impl_self="Interpolation"), "defaults", None)]
     for name, fn, var, src in sites:
         if fn is None:
             r.missing(name)
